@@ -16,11 +16,13 @@ func c11Pairs(xs ...string) [][2]string {
 }
 
 // key strings: every base comes in several letter cases; separators, the text "nil", digits, quotes, blanks
-var c11StrBases = []string{"ab", "a", "b", "é", "x y", "a_b", "nil", "0", "a'b", "q%"}
+var c11StrBases = []string{"ab", "a", "b", "é", "x y", "a_b", "nil", "0", "a'b", "q%", "1"}
 
+// a "near-equal" variant of a key string: another letter case, surrounding blanks, a numerically equal spelling —
+// values that a normalising comparison (case folding, trimming, numeric parsing) would wrongly identify
 func c11CaseVariant(rng *rand.Rand, s string) string {
 	rs := []rune(s)
-	switch rng.Intn(4) {
+	switch rng.Intn(8) {
 	case 0:
 		return strings.ToUpper(s)
 	case 1:
@@ -28,6 +30,17 @@ func c11CaseVariant(rng *rand.Rand, s string) string {
 	case 2:
 		if len(rs) > 1 {
 			return string(rs[:len(rs)-1]) + strings.ToUpper(string(rs[len(rs)-1:]))
+		}
+	case 3:
+		return s + " "
+	case 4:
+		if rng.Intn(2) == 0 {
+			return " " + s
+		}
+		return s + "\t"
+	case 5:
+		if s == "0" || s == "1" {
+			return []string{"0" + s, s + ".0", "+" + s}[rng.Intn(3)]
 		}
 	}
 	return s
@@ -62,7 +75,7 @@ func c11StrFK(rng *rand.Rand, keys []string, pNull, pOrphan int) interface{} {
 		if len(keys) > 0 && rng.Intn(2) == 0 {
 			k := keys[rng.Intn(len(keys))]
 			for i := 0; i < 4; i++ {
-				v := c11CaseVariant(rng, strings.ToLower(k))
+				v := c11CaseVariant(rng, strings.TrimSpace(strings.ToLower(k)))
 				if !c11In(keys, v) {
 					return v
 				}
@@ -328,7 +341,7 @@ func init() {
 	famC.Gen = func(rng *rand.Rand, mode int) c11World {
 		w := c11World{Family: "C", Tables: map[string][]c11Row{}}
 		add := func(t string, r c11Row) { w.Tables[t] = append(w.Tables[t], r) }
-		codes := []string{"", "a", "A", "b", "ab", "AB"}
+		codes := []string{"", "a", "A", "b", "ab", "AB", "a ", " a", "1", "01"}
 		if mode == 1 {
 			codes = append(codes, "a_b", "nil", "1_a")
 		}
@@ -356,7 +369,7 @@ func init() {
 		var custs []ck
 		seenC := map[ck]bool{}
 		for i, k := 0, 1+rng.Intn(4); i < k; i++ {
-			c := ck{rng.Intn(2), rng.Intn(3), []string{"", "z", "Z"}[rng.Intn(3)]}
+			c := ck{rng.Intn(2), rng.Intn(3), []string{"", "z", "Z", "z "}[rng.Intn(4)]}
 			if (c.t == 0 && c.i == 0 && c.z == "") || seenC[c] {
 				continue
 			}
@@ -435,7 +448,7 @@ func init() {
 		}
 		var labels []lk
 		seenL := map[lk]bool{}
-		nss := []string{"", "x", "X", "y"}
+		nss := []string{"", "x", "X", "y", "x "}
 		if mode == 1 {
 			nss = append(nss, "x_1", "nil")
 		}
